@@ -58,12 +58,17 @@ try:
     res["demo_output_with_change"] = out[-1500:]
     # (git stash is shared between worktrees of one repository: never use it here)
     rc, out = sh("git apply -R %s" % patch, cwd=WT)
+    if rc != 0:
+        # (applied by three-way merge: the scratch worktree is simply reset)
+        rc, out = sh("git reset -q --hard HEAD && git clean -fdq", cwd=WT)
     assert rc == 0, out
     rc, out = demo()
     res["demo_passes_without_change"] = rc == 0
     if rc != 0:
         print("demo on clean tree:", out[-3000:])
     rc, out = sh("git apply %s" % patch, cwd=WT)
+    if rc != 0:
+        rc, out = sh("git apply -3 %s" % patch, cwd=WT)
     assert rc == 0, out
     confirmed = res["suite_passes_with_change"] and res["demo_fails_with_change"] and res["demo_passes_without_change"]
     res["confirmed"] = confirmed
